@@ -6,6 +6,7 @@ result == unmemoized result, both computed by the implementation) is evaluated h
 import numpy as np
 from harness.driver import call_impl, cz, cnat, cbool, czlist, cgrid, chist, clist, cres
 from harness.twins import PredLt, PredScript, PredLogged, make_rule, coq_rule_spec
+from harness import twins
 
 ID = 'C04'
 COQ_IMPORTS = ('From Coq Require Import String.\n'
@@ -15,7 +16,10 @@ NONTRIVIAL_RULE = ('non-trivial = the process contains a memoized call (True or 
                    'entered the rule fewer times than the unmemoized evolution would (R*C per step), i.e. at least one '
                    'cache entry was hit; distinct = distinct case dicts')
 EXHAUSTIVE = {'quick': False, 'thorough': False}
-NOTES = ['every shape R x C <= 6x6 (1xN, Nx1, 3x4 and 4x3, primes included), every radius 0..min(R,C) and both '
+NOTES = ['round 5: bigr/* (r = 16, 17: windows > 1000 cells), floatret/* (non-integral float results on integer automata; '
+         'pos = CProc with the family member, neg = CProcNeg in Corr/C04.v: the truncating cast), dress/<how>/* (every '
+         'twins.RULE_DRESSINGS shape, outermost), layout/<fortran|transposed|negstride>/* (non-C-contiguous history)',
+         'every shape R x C <= 6x6 (1xN, Nx1, 3x4 and 4x3, primes included), every radius 0..min(R,C) and both '
          'neighbourhood types are swept with all three modes on the same input; grids (sparse / striped / checkerboard / '
          'constant / random over k in {2,3}), rules, step counts, callable timesteps, option spellings and call '
          'sequences are sampled; 60% of the call sequences pass ONE rule object to all their calls, which differ in '
@@ -77,6 +81,39 @@ class Counting:
         self.n += 1
         v = self.f(n, c, t)
         return getattr(np, self.ret)(v) if self.ret else v
+
+
+class HalfLin:
+    """content-only rule that returns a NON-INTEGRAL float: q + frac, or -(q) - frac, where q >= 0 is the value of the
+    wrapped Lin2 / Aff2 twin and 0 < frac < 1.  On an integer automaton every engine stores it with NumPy's truncating
+    cast (toward zero): q resp. -q.  Model side: Corr/C04.v (CProc with the family member resp. CProcNeg)."""
+    def __init__(self, base, frac, neg, npf):
+        self.base, self.frac, self.neg, self.npf = base, frac, neg, npf
+
+    def __call__(self, n, c, t):
+        v = self.base(n, c, t) + self.frac
+        v = -v if self.neg else v
+        return np.float64(v) if self.npf else float(v)
+
+
+def _build_rule(c):
+    """(the counting twin, the object handed to evolve2d): the dressing is the OUTERMOST wrapper"""
+    base = make_rule(c['rule'], dim=2)
+    if c.get('fret'):
+        base = HalfLin(base, c['fret']['frac'], c['fret']['neg'], c['fret']['np'])
+    counting = Counting(base, c.get('ret'))
+    return counting, twins.dress(counting, c.get('dress'))
+
+
+def _layout(ca, how):
+    """the same logical array in another memory layout (never C-contiguous)"""
+    if how == 'fortran':
+        return np.asfortranarray(ca)
+    if how == 'transposed':
+        return np.ascontiguousarray(ca.transpose(0, 2, 1)).transpose(0, 2, 1)
+    if how == 'negstride':
+        return np.ascontiguousarray(ca[:, ::-1, ::-1])[:, ::-1, ::-1]
+    return ca
 
 
 def _grid(rng, R, C, style, k):
@@ -152,7 +189,7 @@ def _r_kind(r, R, C):
     return 'r=0' if r == 0 else ('r=min' if r == min(R, C) else ('r>=2' if r >= 2 else 'r=1'))
 
 
-def generate(rng, tier):
+def _generate_main(rng, tier):
     D = 6
     # -- every shape x every radius x both neighbourhood types; all three modes on the same input
     for R in range(1, D + 1):
@@ -303,6 +340,56 @@ def generate(rng, tier):
             ts = {'fixed': rng.choice([2, 3, 4])} if kind == 'above2^53' or rng.random() < 0.7 else {'lt': rng.randint(2, 4)}
             calls = [dict(_call(R, C, r, ty, [g], rule, m_, ts, dtype), ret=ret) for m_ in MODES3]
             yield {'kind': 'values/%s' % kind, 'calls': calls}
+    # -- round 5 (bigr: see _gen_bigr / generate) ------------------------------------------------------------------
+    # floatret: integer automata, content-only rules returning NON-integral floats (q + frac / -(q) - frac): every mode
+    # must apply the same (truncating) cast
+    n_fr = 20 if tier == 'quick' else 200
+    for i in range(n_fr):
+        for neg in (False, True):
+            R, C = rng.choice([(2, 3), (3, 3), (3, 4), (4, 4), (5, 3), (1, 4)])
+            r = rng.randint(0, min(R, C, 2))
+            ty = rng.choice(['moore', 'vn'])
+            k = rng.choice([3, 4, 5])
+            dtype = rng.choice(['int64', 'int32', 'int8'] if neg else ['int64', 'int32', 'uint8'])
+            rule = _lin(rng, r, k)
+            fret = {'frac': rng.choice([0.5, 0.5, 0.75, 0.25]), 'neg': neg, 'np': rng.random() < 0.4}
+            g = _grid(rng, R, C, rng.choice(STYLES), k)
+            if neg:
+                g = [[-x if rng.random() < 0.5 else x for x in row] for row in g]
+            ts = rng.choice([{'fixed': 2}, {'fixed': 3}, {'fixed': 4}, {'lt': 3}])
+            calls = [dict(_call(R, C, r, ty, [g], rule, m_, ts, dtype), fret=fret) for m_ in MODES3]
+            yield {'kind': 'floatret/%s/frac=%s' % ('neg' if neg else 'pos', fret['frac']), 'neg': neg, 'calls': calls}
+    # dress: the rule callable (and the timesteps predicate) handed over in every shape of twins.RULE_DRESSINGS; the
+    # dressing is the outermost wrapper and changes no behaviour; the Coq side ignores it
+    reps = 2 if tier == 'quick' else 8
+    for di, how in enumerate(twins.RULE_DRESSINGS):
+        for j in range(reps):
+            for ty in ('moore', 'vn'):
+                R, C = rng.choice([(2, 3), (3, 3), (3, 4), (4, 4), (4, 2)])
+                r = rng.randint(0, min(R, C, 2))
+                k = rng.choice([2, 3])
+                dyn = (j + di) % 2 == 1
+                ts = rng.choice([{'lt': 3}, {'script': [True, True, False]}, {'ufplt': 4}]) if dyn else {'fixed': rng.choice([2, 3])}
+                pd = twins.PRED_DRESSINGS[(di + j) % len(twins.PRED_DRESSINGS)] if dyn else None
+                rule = _lin(rng, r, k)
+                g = _grid(rng, R, C, rng.choice(STYLES), k)
+                calls = [dict(_call(R, C, r, ty, [g], rule, m_, ts), dress=how, pdress=pd) for m_ in MODES3]
+                yield {'kind': 'dress/%s/%s/%s' % (how, ty, 'callable' if dyn else 'fixed'), 'calls': calls}
+    # layout: the same logical history handed over as a non-C-contiguous array
+    n_lay = 6 if tier == 'quick' else 40
+    for how in ('fortran', 'transposed', 'negstride'):
+        for j in range(n_lay):
+            R, C = rng.choice([(2, 3), (3, 4), (4, 3), (4, 4), (5, 2), (1, 4)])
+            r = rng.randint(0, min(R, C, 2))
+            ty = 'moore' if j % 2 else 'vn'
+            k = rng.choice([2, 3])
+            H = rng.choice([1, 2, 3])
+            hist = [_grid(rng, R, C, 'random', k) for _ in range(H)]
+            ts = {'fixed': rng.choice([2, 3])} if j % 3 else {'lt': 3}
+            rule = _lin(rng, r, k)
+            calls = [dict(_call(R, C, r, ty, hist, rule, m_, ts, rng.choice(['int64', 'int32', 'float64'])), layout=how)
+                     for m_ in MODES3]
+            yield {'kind': 'layout/%s/%s' % (how, ty), 'calls': calls}
     # -- random larger shapes (not only powers of two), small radii
     n_rand = 60 if tier == 'quick' else 1200
     for _ in range(n_rand):
@@ -313,17 +400,46 @@ def generate(rng, tier):
                                                        _ts(rng), H=rng.choice([1, 2]))}
 
 
-def _timesteps(ts):
+def _gen_bigr(rng, tier):
+    """windows of more than 1000 cells (r = 16, 17: 33x33 / 35x35; the domain r <= min(R, C) needs R, C >= 16; the window
+    wraps around the torus twice), rule with distinct weights so that neighbourhoods are told apart; T = 2.
+    Coq cost of one 16x16 call: False 2 s, True 6.5 s, 'recursive' 16 s — so in the quick tier only one process runs
+    all three modes, the others False + True (True is where the key of a big window is formed)."""
+    bigs = [(16, 16, 16, 'vn', {'fixed': 2}, MODES3), (16, 18, 16, 'vn', {'fixed': 2}, MODES3[:2]),
+            (17, 17, 17, 'vn', {'fixed': 2}, MODES3[:2]), (18, 17, 16, 'vn', {'lt': 2}, MODES3[:2]),
+            (17, 16, 16, 'moore', {'fixed': 2}, MODES3[:2]), (17, 17, 17, 'moore', {'fixed': 2}, ['false', 'rec_lit'])]
+    if tier != 'quick':
+        bigs = [(R_, C_, r_, ty_, ts_, MODES3) for (R_, C_, r_, ty_, ts_, _) in bigs]
+        bigs += [(R_, C_, r_, ty_, {'fixed': 3}, MODES3) for (R_, C_, r_, ty_, _, _) in bigs] + [(20, 19, 17, 'vn', {'fixed': 2}, MODES3)]
+    for R, C, r, ty, ts, modes in bigs:
+        w = (2 * r + 1) ** 2
+        rule = {'fam': 'lin', 'ws': [rng.randint(1, 6) for _ in range(w)], 'm': 7}
+        g = [[rng.randint(0, 2) for _ in range(C)] for _ in range(R)]
+        yield {'kind': 'bigr/%s/r=%d' % (ty, r), 'calls': [_call(R, C, r, ty, [g], rule, m_, ts) for m_ in modes]}
+
+
+def generate(rng, tier):
+    """the bigr processes are expensive for Coq: they are spread over the stream so that they land in different shards"""
+    import random
+    big = list(_gen_bigr(random.Random(rng.getrandbits(32)), tier))
+    for i, c in enumerate(_generate_main(rng, tier)):
+        if big and i % 230 == 100:
+            yield big.pop(0)
+        yield c
+    yield from big
+
+
+def _timesteps(ts, pdress=None):
     import cellpylib as cpl
     if 'fixed' in ts:
         return ts['fixed']
     if 'lt' in ts:
-        return PredLt(ts['lt'])
+        return twins.dress_pred(PredLt(ts['lt']), pdress)
     if 'script' in ts:
-        return PredScript(list(ts['script']))
+        return twins.dress_pred(PredScript(list(ts['script'])), pdress)
     k = ts['ufplt']
     ufp = cpl.until_fixed_point()
-    return lambda history_arg, count_arg: count_arg < k and ufp(history_arg, count_arg)
+    return twins.dress_pred(lambda history_arg, count_arg: count_arg < k and ufp(history_arg, count_arg), pdress)
 
 
 def _grids(out):
@@ -332,11 +448,13 @@ def _grids(out):
 
 
 def _run_one(cpl, c, memo_value, rule=None):
-    ca = np.array(c['hist'], dtype=np.dtype(c['dtype']))
-    rule = rule or Counting(make_rule(c['rule'], dim=2), c.get('ret'))
+    ca = _layout(np.array(c['hist'], dtype=np.dtype(c['dtype'])), c.get('layout'))
+    handed = rule
+    if rule is None:
+        rule, handed = _build_rule(c)
     n0 = rule.n
     nb = 'Moore' if c['ty'] == 'moore' else 'von Neumann'
-    res = call_impl(lambda: cpl.evolve2d(ca, timesteps=_timesteps(c['ts']), apply_rule=rule, r=c['r'],
+    res = call_impl(lambda: cpl.evolve2d(ca, timesteps=_timesteps(c['ts'], c.get('pdress')), apply_rule=handed, r=c['r'],
                                          neighbourhood=nb, memoize=memo_value))
     if res[0] != 'ok':
         return list(res), rule.n - n0
@@ -380,7 +498,8 @@ def _ccall(c):
 
 
 def to_coq(case, obs):
-    return '(CProc %s %s)' % (clist(case['calls'], _ccall), clist([o['res'] for o in obs], lambda r: cres(r, chist)))
+    return '(%s %s %s)' % ('CProcNeg' if case.get('neg') else 'CProc', clist(case['calls'], _ccall),
+                          clist([o['res'] for o in obs], lambda r: cres(r, chist)))
 
 
 def nontrivial(case, obs):
@@ -432,5 +551,33 @@ def shrink(case):
             yield sub(ts={'fixed': c['ts']['fixed'] - 1})
         if c['dtype'] != 'int64':
             yield sub(dtype='int64')
+        if c.get('dress') or c.get('pdress'):
+            yield sub(dress=None, pdress=None)
+        if c.get('layout'):
+            yield sub(layout=None)
         if any(w != 1 for w in c['rule']['ws']) and not case.get('share_rule'):
             yield sub(rule=dict(c['rule'], ws=[1] * len(c['rule']['ws'])))
+
+
+# ------------------------------------------------------------------ source tie (appended; harness/translate.py)
+# pre(): regenerate coq/gen/GenFuns_C04.v from the Python source of the tree under test and, if it changed, re-prove
+# GenProps/GenFunsEquivC04.v, GenProps/C04Src.v and Properties/C04.v (theorem C04_source_tie) by hand.
+# extra_checks(): report a failed translation / equivalence proof (theorem names, translator or coqc error).
+from harness import translate as _translate
+_prev_pre = globals().get('pre')
+_prev_extra_checks = globals().get('extra_checks')
+TRUSTED = list(globals().get('TRUSTED', [])) + [_translate.TRUSTED_NOTE]
+NOTES = list(globals().get('NOTES', [])) + [
+    'coq/gen/GenFuns_C04.v is regenerated from the Python source at the start of every run; theorem C04_source_tie '
+    'proves the regenerated definitions equal to the hand-written model for all inputs']
+
+
+def pre(ctx):
+    if _prev_pre is not None:
+        _prev_pre(ctx)
+    _translate.pre_hook(ctx, 'C04')
+
+
+def extra_checks(ctx):
+    out = list(_prev_extra_checks(ctx)) if _prev_extra_checks is not None else []
+    return out + _translate.extra_hook(ctx, 'C04')
